@@ -82,7 +82,16 @@ pub fn run(ctx: &Ctx, out: &mut CaseOut) {
                     match o {
                         Outcome::Answer(a) => {
                             if &a != f {
-                                let sig = if delayed && a.is_none() && f.is_some() { Some("slg:stale-delayed-answer-table") } else { None };
+                                let trivial = |s: &Option<chalk_solve::Solution<I>>| matches!(s, Some(chalk_solve::Solution::Unique(c)) if !c.value.subst.is_empty(chalk_integration::interner::ChalkIr) && c.value.subst.is_identity_subst(chalk_integration::interner::ChalkIr));
+                                let ambig = |s: &Option<chalk_solve::Solution<I>>| s.as_ref().map_or(false, |s| s.is_ambig());
+                                let sig = if delayed && a.is_none() && f.is_some() {
+                                    Some("slg:stale-delayed-answer-table")
+                                } else if is_slg && ((trivial(&a) && ambig(f)) || (trivial(f) && ambig(&a))) {
+                                    // F12: warm sub-tables change the order in which answers arrive
+                                    Some("slg:trivial-answer-green-cut-order")
+                                } else {
+                                    None
+                                };
                                 out.violation(
                                     sig,
                                     format!("{}: fresh solver answers `{}` but after {} earlier goals the same solver answers `{}`", solver_name(&choice), disp(f), history.len(), disp(&a)),
